@@ -1,11 +1,12 @@
 //! Scenario crate `scn-exchange`: the exchange lifecycle on the in-process cluster.
 
+pub mod c32;
 pub mod c40;
 pub mod exchange;
 
 use simcore::{CheckSpec, Part};
 
-pub const PROPERTIES: &[&str] = &["C22", "C23", "C44", "C21", "C09", "C19", "C40"];
+pub const PROPERTIES: &[&str] = &["C22", "C23", "C44", "C21", "C09", "C19", "C40", "C32"];
 
 const CHAIN_ASSUMPTIONS: &[&str] = &[
     "programs run natively on the host, not in the SBF VM: compute budget, stack/heap limits and transaction size are not modelled",
@@ -26,6 +27,7 @@ pub fn registry(property: &str) -> Option<CheckSpec> {
         "C21" => ("fault_enumeration", 3_000, 100_000, vec!["chain part: every soft-failed execution is followed by a fork comparison (world with the abandoned operation vs world without it)"]),
         "C09" => ("exploration", 3_000, 100_000, vec!["chain part: liquidations always close the whole position; health predicates are checked in marketsim"]),
         "C19" => ("fault_enumeration", 2_000, 60_000, vec![]),
+        "C32" => ("exploration", 1_000, 40_000, vec!["at this commit every execution call site passes a builder fee factor of 0 (TODO(builder-fee) in ops/order.rs) and no instruction checkpoints a builder onto an order: the fee arithmetic (compute / clamp / charge-on-increment / withdrawal estimate) is therefore evaluated through a cfg-guarded hook on the sizes, prices, increments and outputs of the position orders executed in the simulated histories, and the charge is recorded on the order account by the simulator (stub) so that the real settle_builder_fee instruction runs, incl. duplicated settlements", "fee reference accepts both placements of the intermediate rounding of size x factor"]),
         "C40" => ("translation_validation", 1_500, 50_000, vec!["the SDK side is gmsol_programs::model::MarketModel built from the same account bytes; its wall clock is replaced by the chain time through the cfg(gmsol_verif) hook", "replayed operations: update_fees_state, deposits and withdrawals without swap paths; position orders and swaps are compared at the decoding level only", "prices are those the program's own oracle accepts (obtained by running set_prices_from_price_feed on a fork)"]),
         _ => return None,
     };
